@@ -1,78 +1,82 @@
 import PBProofs.Lemmas.Config
 namespace PB.Config
 
-theorem validate_strs (o : Opt) (ho : RegOK o) (ss : List String) (c : Cache) :
-    validate o (.strs ss) = .ok c ↔ Valid o (.strs ss) c := by
-  unfold Valid validate
-  by_cases hty : o.ty = .strs
-  · simp only [hty, ne_eq, not_true_eq_false, false_and, if_false, canon]
-    have := strsBody_ok_iff o ho hty ss c
-    rw [hty] at this
-    rw [this]
-    constructor
-    · rintro ⟨rfl, h⟩; simpa using h
-    · rintro ⟨h1, h⟩; cases h1; simpa using h
-  · have hc : canon o.ty (.strs ss) = none := by cases h : o.ty <;> simp_all [canon]
-    simp [hc, strsBody, hty]
-    split <;> simp
+theorem check_of_valid (o : Opt) (ho : RegOK o) (v : Val) (hv : v.WF) (c : Cache) (h : Valid o (migrate o.mg v) c) :
+    check o v = .ok c :=
+  (validate_ok_iff_valid o ho _ (migrate_WF o.mg v hv) c).mpr h
 
-theorem validateStrs_ok_iff (o : Opt) (ho : RegOK o) (ss : List String) (c : Cache) :
-    validateStrs o ss = .ok c ↔ Valid o (.strs ss) c := by
-  rw [← validate_strs o ho]
-  simp [validateStrs, validate]
+theorem wf_writeUser (st : St) (h : WF st) (k : Key) (v : Val) (hv : v.WF) : WF (writeUser st k v).1 := by
+  rcases writeUser_cases st h k v hv with ⟨_, e⟩ | ⟨o, hf, _, e⟩ | ⟨o, c, hf, _, hval, e⟩ | ⟨o, _, _, _, _, e⟩
+  · rw [e]; exact h
+  · rw [e]
+    have hm := find?_some_mem hf
+    exact wf_putOpt st h o _ (by rw [show ({ o with user := none } : Opt).key = k from hm.2]; exact hf)
+      ⟨rfl, rfl, rfl, rfl, rfl, rfl, rfl, rfl⟩ (by intro c hc; cases hc)
+  · rw [e]
+    have hm := find?_some_mem hf
+    refine wf_putOpt st h o _ (by rw [show ({ o with user := some c } : Opt).key = k from hm.2]; exact hf)
+      ⟨rfl, rfl, rfl, rfl, rfl, rfl, rfl, rfl⟩ ?_
+    intro c' hc'
+    have : c = c' := by simpa using hc'
+    subst this
+    have hck := check_of_valid o (h.reg o hm.1) v hv c hval
+    exact (check_static { o with user := some c } o ⟨rfl, rfl, rfl, rfl, rfl, rfl, rfl, rfl⟩ _).trans
+      (check_json_idem o (h.reg o hm.1) v hv c hck)
+  · rw [e]; exact h
 
-theorem validate_anys (o : Opt) (ho : RegOK o) (l : List (Option String)) (c : Cache) :
-    validate o (.anys l) = .ok c ↔ Valid o (.anys l) c := by
-  by_cases hty : o.ty = .strs
-  · unfold validate
-    simp only [hty, ne_eq, not_true_eq_false, false_and, if_false]
-    cases hl : allStrings l with
-    | none => simp [Valid, canon, hty, hl]
-    | some ss =>
+theorem wf_writeDflt (st : St) (h : WF st) (k : Key) (v : Val) (hv : v.WF) : WF (writeDflt st k v).1 := by
+  rcases writeDflt_cases st h k v hv with ⟨_, e⟩ | ⟨o, hf, _, e⟩ | ⟨o, c, hf, _, hval, e⟩ | ⟨o, _, _, _, _, e⟩
+  · rw [e]; exact h
+  · rw [e]
+    have hm := find?_some_mem hf
+    refine wf_putOpt st h o _ (by rw [show ({ o with dflt := none } : Opt).key = k from hm.2]; exact hf)
+      ⟨rfl, rfl, rfl, rfl, rfl, rfl, rfl, rfl⟩ ?_
+    intro c' hc'
+    exact (check_static { o with dflt := none } o ⟨rfl, rfl, rfl, rfl, rfl, rfl, rfl, rfl⟩ _).trans (h.uvalid o hm.1 c' hc')
+  · rw [e]
+    have hm := find?_some_mem hf
+    refine wf_putOpt st h o _ (by rw [show ({ o with dflt := some c } : Opt).key = k from hm.2]; exact hf)
+      ⟨rfl, rfl, rfl, rfl, rfl, rfl, rfl, rfl⟩ ?_
+    intro c' hc'
+    exact (check_static { o with dflt := some c } o ⟨rfl, rfl, rfl, rfl, rfl, rfl, rfl, rfl⟩ _).trans (h.uvalid o hm.1 c' hc')
+  · rw [e]; exact h
+
+theorem wf_setUser (st : St) (h : WF st) (k : Key) (v : Val) (hv : v.WF) : WF (setUser st k v).1 := by
+  have hw := wf_writeUser st h k v hv
+  unfold setUser
+  split
+  · rename_i st' heq; rw [heq] at hw; exact wf_save _ (wf_signal _ hw)
+  · rename_i st' e heq; rw [heq] at hw; exact hw
+
+theorem wf_setDflt (st : St) (h : WF st) (k : Key) (v : Val) (hv : v.WF) : WF (setDflt st k v).1 := by
+  have hw := wf_writeDflt st h k v hv
+  unfold setDflt
+  split
+  · rename_i st' heq; rw [heq] at hw; exact wf_signal _ hw
+  · rename_i st' e heq; rw [heq] at hw; exact hw
+
+theorem wf_replaceUser (st : St) (h : WF st) (m : List (Key × Val)) (hm : ∀ e ∈ m, e.2.WF) :
+    WF (replaceUser st m).1 := by
+  unfold replaceUser
+  refine wf_signal _ (wf_mapUser st h (replOne m) ?_)
+  intro o ho c hc
+  obtain ⟨v, hl, hck⟩ := replOne_some hc
+  exact check_json_idem o (h.reg o ho) v (hm _ (lookup_mem hl)) c hck
+
+theorem wf_replaceDflt (st : St) (h : WF st) (m : List (Key × Val)) : WF (replaceDflt st m).1 := by
+  unfold replaceDflt
+  exact wf_signal _ (wf_mapDflt st h (replOne m))
+
+theorem wf_load (st : St) (h : WF st) (b : Bool) (hf : ∀ t, st.file = .tree t → ∀ e ∈ t, e.2.WF) : WF (load st b).1 := by
+  unfold load
+  split
+  · exact h
+  · split
+    · exact h
+    · exact h
+    · rename_i t heq
+      have := wf_replaceUser st h (flatten t) (hf t heq)
       simp only []
-      have h := validateStrs_ok_iff o ho ss
-      cases hv : validateStrs o ss with
-      | error e =>
-        have hno : ∀ c, ¬ Valid o (.strs ss) c := fun c hc => by
-          have := (h c).mpr hc; rw [hv] at this; cases this
-        simp
-        intro hc
-        apply hno c
-        simpa [Valid, canon, hty, hl] using hc
-      | ok c' =>
-        have hc' := (h c').mp hv
-        simp only [Valid, canon, hty, hl, Option.map_some, Option.some.injEq] at hc' ⊢
-        obtain ⟨e1, e2, e3, e4⟩ := hc'
-        subst e1
-        have hvf : vfCheck o { a := ss } = .ok { a := ss } := by simp [vfCheck, hty, e4]
-        rw [hvf]
-        constructor
-        · intro hh
-          cases hh
-          exact ⟨rfl, e2, e3, e4⟩
-        · rintro ⟨rfl, _⟩
-          rfl
-  · have hc : canon o.ty (.anys l) = none := by cases h : o.ty <;> simp_all [canon]
-    simp only [Valid, hc]
-    simp
-    unfold validate
-    split
-    · simp
-    · cases hl : allStrings l with
-      | none => simp [hl]
-      | some ss =>
-        have : validateStrs o ss = .error .notAllowed ∨ validateStrs o ss = .error .type := by
-          unfold validateStrs strsBody
-          simp [hty]
-        rcases this with h | h <;> simp [hl, h]
-
-theorem validate_rest (o : Opt) (v : Val) (c : Cache)
-    (hv : v = .nil ∨ (∃ n, v = .u64 n) ∨ (∃ h, v = .bytes h) ∨ (∃ t, v = .other t)) :
-    validate o v = .ok c ↔ Valid o v c := by
-  have hc : canon o.ty v = none := by
-    rcases hv with rfl | ⟨n, rfl⟩ | ⟨h, rfl⟩ | ⟨t, rfl⟩ <;> cases o.ty <;> rfl
-  simp only [Valid, hc]
-  simp
-  rcases hv with rfl | ⟨n, rfl⟩ | ⟨h, rfl⟩ | ⟨t, rfl⟩ <;> unfold validate <;> split <;> simp
+      split <;> exact this
 
 end PB.Config
